@@ -344,10 +344,12 @@ type c02Cell struct {
 	inst  map[string]*c02Inst // by role
 	sec   *c02Secrets
 
-	tokMu   sync.Mutex
-	lastTok c02Tokens
+	tokMu     sync.Mutex
+	lastTok   c02Tokens
+	longLived bool
 
 	histories []*c02History // versions of one store entry / one session's cookies over several saves
+	storeObs  map[string][]string // store key -> every distinct raw value observed under it, in order
 
 	seenMu      sync.Mutex
 	seenCookies map[string]bool // every cookie value received from the proxy (name=value), for the opacity scan
@@ -433,6 +435,7 @@ func (c *c02Cell) loginAt(in *c02Inst, label string, who vfIdentity, at time.Tim
 			if !before[k] {
 				cr.RedisKey = k
 				cr.RedisVal, _ = c.w.Redis().Get(k)
+				c.observeStore(k, cr.RedisVal)
 			}
 		}
 		if cr.RedisKey == "" {
@@ -702,11 +705,15 @@ func (c *c02Cell) work() {
 		cf.TokenResponseMutate = func(grant string, resp map[string]interface{}) {
 			s := func(k string) string { v, _ := resp[k].(string); return v }
 			c.tokMu.Lock()
+			if c.longLived { // save histories run the proxy's clock hours ahead: the tokens must outlive that
+				resp["expires_in"] = 86400
+			}
 			c.lastTok = c02Tokens{Access: s("access_token"), ID: s("id_token"), Refresh: s("refresh_token")}
 			c.tokMu.Unlock()
 		}
 	})
-	R := c.newInst("issuer-with-refresh", g.Store, secret, g.CookieName, "--cookie-refresh=1h") // same deployment as the issuer, used for the save histories only
+	R := c.newInst("issuer-with-refresh", g.Store, secret, g.CookieName, "--cookie-refresh=1h", "--insecure-oidc-skip-nonce=true") // same deployment as the issuer, used for the save histories only
+	// (skip-nonce: the fake IdP, like most providers, issues refreshed ID tokens without a nonce claim, which the nonce check of a refreshed session rejects)
 	lifetime := int64(g.Expire / time.Second)
 	noExpiry := g.Expire == 0 // no credential can be "expired": the expired must-reject bases do not exist in this group
 	past := func() time.Time { return time.Now().Add(-2 * g.Expire) }
@@ -1078,6 +1085,20 @@ func (c *c02Cell) csrfTransplants(csrf1, csrf2, s *c02Cred) []c02Variant {
 	return out
 }
 
+func (c *c02Cell) observeStore(key, val string) {
+	c.seenMu.Lock()
+	defer c.seenMu.Unlock()
+	if c.storeObs == nil {
+		c.storeObs = map[string][]string{}
+	}
+	for _, v := range c.storeObs[key] {
+		if v == val {
+			return
+		}
+	}
+	c.storeObs[key] = append(c.storeObs[key], val)
+}
+
 // c02History: the successive versions of ONE session as an observer of the store / of the browser traffic sees them.
 type c02History struct {
 	Label    string
@@ -1093,8 +1114,13 @@ type c02History struct {
 // of which refreshes the tokens at the IdP and re-saves the session (Redis: same ticket, same store entry).
 func (c *c02Cell) saveHistory(R *c02Inst, n int) {
 	who := c02Identity(c.rng, "r", c.rng.Intn(300))
+	setLong := func(b bool) { c.tokMu.Lock(); c.longLived = b; c.tokMu.Unlock() }
+	setLong(true)
 	c.w.IdP.Set(func(cf *vfIdPCfg) { cf.IDTokenTTL = 24 * time.Hour; cf.NoRefreshRotation = true })
-	defer c.w.IdP.Set(func(cf *vfIdPCfg) { cf.IDTokenTTL = time.Hour; cf.NoRefreshRotation = false })
+	defer func() {
+		setLong(false)
+		c.w.IdP.Set(func(cf *vfIdPCfg) { cf.IDTokenTTL = time.Hour; cf.NoRefreshRotation = false })
+	}()
 	cr := c.loginAt(R, "R", who, time.Time{})
 	h := &c02History{Label: "R", RedisKey: cr.RedisKey, Tokens: []c02Tokens{cr.Tok}, Who: who, Flags: R.P.Flags}
 	if cr.RedisKey != "" {
@@ -1128,6 +1154,7 @@ func (c *c02Cell) saveHistory(R *c02Inst, n int) {
 				c.run.T.Fatalf("C02 rig: refresh %d of session R left the store entry %q unchanged (%v)", k, cr.RedisKey, err)
 			}
 			h.Versions = append(h.Versions, v)
+			c.observeStore(cr.RedisKey, v)
 		}
 		c.run.Count("sessions_resaved_through_same_cookie", 1)
 	}
@@ -1178,6 +1205,104 @@ func (c *c02Cell) opacity() {
 	})
 	run.Count("opacity_stages_searched", stages)
 	run.Count("opacity_secrets_known", int64(c.sec.Count()))
+	flags := c.inst["issuer"].P.Flags
+
+	// --- IVs of everything encrypted under the cookie secret (cookie-store sessions, CSRF cookies): never twice
+	ivSeen := map[string]string{}
+	for _, it := range items {
+		if it.where != "cookie" {
+			continue
+		}
+		csrf := strings.HasSuffix(it.key, "_csrf")
+		first := csrf || it.key == c.g.CookieName || it.key == c.g.CookieName+"_0"
+		if !first || (c.g.Store == "redis" && !csrf) { // (a ticket cookie is not a ciphertext)
+			continue
+		}
+		iv, ok := c02CookieIV(it.val)
+		if !ok {
+			continue
+		}
+		run.Count("ivs_observed_cookie_secret", 1)
+		if prev, dup := ivSeen[iv]; dup {
+			run.Violation("c02:iv-or-nonce-reused", fmt.Sprintf("[%s/%s] two different cookies encrypted under the cookie secret carry the same IV %x", c.g.Store, c.g.Form.Name, iv),
+				map[string]interface{}{"flags": flags, "iv_hex": fmt.Sprintf("%x", iv), "cookie_1": prev, "cookie_2": it.key + "=" + it.val})
+		} else {
+			ivSeen[iv] = it.key + "=" + it.val
+		}
+	}
+	run.Eval(fmt.Sprintf("%s|%s|opacity|iv-uniqueness", c.g.Store, c.g.Form.Name))
+
+	// --- store entries: every version ever observed under a key
+	for _, it := range items {
+		if it.where == "redis" {
+			c.observeStore(it.key, it.val)
+		}
+	}
+	keys := make([]string, 0, len(c.storeObs))
+	for k := range c.storeObs {
+		keys = append(keys, k)
+	}
+	sort.Strings(keys)
+	acrossKeys := map[string]string{}
+	for _, k := range keys {
+		vers := c.storeObs[k]
+		run.Count("store_entry_versions_observed", int64(len(vers)))
+		// (1) nonce uniqueness among the versions of one entry (= one key)
+		nonces := map[string]int{}
+		for vi, v := range vers {
+			if len(v) < 12 {
+				continue
+			}
+			nc := v[:12]
+			if pv, dup := nonces[nc]; dup {
+				run.Violation("c02:iv-or-nonce-reused", fmt.Sprintf("[%s/%s] versions %d and %d of store entry %q (same ticket, hence same key) carry the same 12-byte nonce %x", c.g.Store, c.g.Form.Name, pv+1, vi+1, k, nc),
+					map[string]interface{}{"flags": flags, "store_key": k, "nonce_hex": fmt.Sprintf("%x", nc), "version_a_hex": fmt.Sprintf("%x", vers[pv]), "version_b_hex": fmt.Sprintf("%x", v),
+						"history": "one login at an instance with --cookie-refresh=1h, then requests with the same ticket cookie 61, 122, 183 minutes later (proxy clock): each refreshes the tokens and re-saves the entry"})
+			} else {
+				nonces[nc] = vi
+			}
+			if other, dup := acrossKeys[nc]; dup && other != k {
+				run.Count("store_nonce_repeats_across_different_entries", 1) // harmless by itself (different keys), recorded
+			}
+			acrossKeys[nc] = k
+		}
+		if len(vers) > 1 {
+			run.Eval(fmt.Sprintf("%s|%s|opacity|nonce-uniqueness-over-%d-versions", c.g.Store, c.g.Form.Name, len(vers)))
+		}
+		// (2) does an entry open with key material that is itself in the store?
+		for vi, v := range vers {
+			from, pt, tried, ok := c02DecryptFromStoreContents(k, []byte(v))
+			run.Count("store_derived_keys_tried", int64(tried))
+			run.Eval(fmt.Sprintf("%s|%s|opacity|store-derived-keys", c.g.Store, c.g.Form.Name))
+			if ok {
+				what := "the AES-GCM tag verifies"
+				if leak := c.sec.scan("decrypted store value", pt); leak != nil {
+					what += "; the plaintext contains the " + leak.Secret
+				}
+				run.Violation("c02:store-entry-decryptable-from-store-contents", fmt.Sprintf("[%s/%s] store entry %q (version %d) decrypts with a key read from the store itself: %s (%s)", c.g.Store, c.g.Form.Name, k, vi+1, from, what),
+					map[string]interface{}{"flags": flags, "store_key": k, "value_hex": fmt.Sprintf("%x", v), "key_taken_from": from, "plaintext_head": vfTrunc(fmt.Sprintf("%q", pt), 300)})
+			}
+		}
+	}
+	// (3) two versions of one entry + knowledge of the older one
+	for _, h := range c.histories {
+		for vi := 0; vi+1 < len(h.Versions); vi++ {
+			old := h.Tokens[vi]
+			known := map[string]string{"access token of version " + fmt.Sprint(vi+1): old.Access, "refresh token of version " + fmt.Sprint(vi+1): old.Refresh}
+			r := c02TwoTimePad([]byte(h.Versions[vi]), []byte(h.Versions[vi+1]), known, c.sec)
+			run.Eval(fmt.Sprintf("%s|%s|opacity|two-versions-xor", c.g.Store, c.g.Form.Name))
+			run.Count("store_version_pairs_xored", 1)
+			det := map[string]interface{}{"flags": h.Flags, "store_key": h.RedisKey, "version_a_hex": fmt.Sprintf("%x", h.Versions[vi]), "version_b_hex": fmt.Sprintf("%x", h.Versions[vi+1]), "longest_equal_run": r.ZeroRun}
+			switch {
+			case r.Recovered != nil:
+				det["recovered"], det["using_known"], det["offset"] = r.Recovered, r.Using, r.Offset
+				run.Violation("c02:plaintext-recoverable-from-store", fmt.Sprintf("[%s/%s] %s recovered without any key from versions %d and %d of store entry %q: version XOR version XOR (%s)", c.g.Store, c.g.Form.Name,
+					r.Recovered.Secret, vi+1, vi+2, h.RedisKey, r.Using), det)
+			case r.ZeroRun >= 24:
+				run.Violation("c02:iv-or-nonce-reused", fmt.Sprintf("[%s/%s] versions %d and %d of store entry %q agree in %d consecutive ciphertext bytes: same key stream", c.g.Store, c.g.Form.Name, vi+1, vi+2, h.RedisKey, r.ZeroRun), det)
+			}
+		}
+	}
 }
 
 // ---------------------------------------------------------------------------------------------------------
@@ -1188,10 +1313,16 @@ func TestVerif_C02(t *testing.T) {
 		"(base64url alphabet / one of |=. / foreign), every truncation length, appended & prepended characters, boundary shifts across the separators and across name|value, timestamp and field-count edits, " +
 		"all field splices of two sessions (same user, two users, expired+live), all permutations / drops / duplications / foreign parts of split cookies, cross-name and cross-instance transplants " +
 		"(other secret, other cookie name, other store kind), re-signing with other keys, ~70 forged signatures (incl. every strict prefix of the correct MAC) on credentials the target never produced. " +
-		"cell = (store, secret form, credential kind, target instance, mutation class, position bucket); opacity: key-less recovery of every cookie and Redis value")
+		"Configurations include --cookie-expire=0 (no lifetime: no expired bases, everything else identical) for both stores. " +
+		"cell = (store[, expire=0], secret form, credential kind, target instance, mutation class, position bucket); opacity: key-less recovery of every cookie and Redis value; " +
+		"uniqueness of every CFB IV under one cookie secret and of every GCM nonce among the versions of one store entry (one session re-saved 3x through the same cookie by real token refreshes per group); " +
+		"two-time-pad recovery on consecutive versions; AES-GCM opening of every store entry with every 16/24/32-byte window of its own key name (raw, hex-decoded) and leading value bytes")
 	run.Assume("the fake IdP's books (who logged in, which tokens were issued) are the reference for 'the session that was issued'",
 		"lifetimes are hours, runs are minutes: no verdict depends on a time threshold", "cryptographic strength is not judged, only the presence of the mechanisms (a fixed IV or a weak key leave no recognisable plaintext)")
 	if err := c02ScannerSelfTest(); err != nil {
+		t.Fatalf("C02 rig: %v", err)
+	}
+	if err := c02CryptoSelfTest(); err != nil {
 		t.Fatalf("C02 rig: %v", err)
 	}
 	groups := c02Groups(run)
@@ -1212,9 +1343,12 @@ func TestVerif_C02(t *testing.T) {
 		fmt.Printf("INCONCLUSIVE property=C02 reason=%d expired credentials are honoured unmodified (lifetime enforcement, C09): the expired must-reject bases could not be used\n", run.Counter("expired_base_honoured_unmodified"))
 		t.Fail()
 	}
-	if run.Violations() == 0 && (run.Counter("accepted_identical") == 0 || run.Counter("must_reject_variants") == 0 || run.Counter("opacity_values_store-value") == 0) {
-		fmt.Printf("INCONCLUSIVE property=C02 reason=a half of the oracle never fired (accepted-identical=%d, must-reject=%d, store values=%d)\n",
-			run.Counter("accepted_identical"), run.Counter("must_reject_variants"), run.Counter("opacity_values_store-value"))
+	if run.Violations() == 0 && (run.Counter("accepted_identical") == 0 || run.Counter("must_reject_variants") == 0 || run.Counter("opacity_values_store-value") == 0 ||
+		run.Counter("issued_without_lifetime_cookie") == 0 || run.Counter("issued_without_lifetime_redis") == 0 || run.Counter("store_version_pairs_xored") == 0 ||
+		run.Counter("ivs_observed_cookie_secret") < 20 || run.Counter("store_derived_keys_tried") == 0) {
+		fmt.Printf("INCONCLUSIVE property=C02 reason=a part of the oracle never fired (accepted-identical=%d, must-reject=%d, store values=%d, expire=0 groups cookie/redis=%d/%d, version pairs=%d, IVs=%d, store-derived keys=%d)\n",
+			run.Counter("accepted_identical"), run.Counter("must_reject_variants"), run.Counter("opacity_values_store-value"), run.Counter("issued_without_lifetime_cookie"), run.Counter("issued_without_lifetime_redis"),
+			run.Counter("store_version_pairs_xored"), run.Counter("ivs_observed_cookie_secret"), run.Counter("store_derived_keys_tried"))
 		t.Fail()
 	}
 }
